@@ -66,7 +66,7 @@ def apply(v: V, root=None):
         return None
     with open(path, 'rt', encoding='utf-8') as f:
         src = f.read()
-    sp = _span(src, v.func)
+    sp = _span(src, v.func) if v.file.endswith('.py') else (0, len(src))
     if sp is None:
         return None
     region = src[sp[0] : sp[1]]
@@ -83,7 +83,8 @@ def apply(v: V, root=None):
         new_region = region[: m.start()] + v.new + region[m.end() :]
     new = src[: sp[0]] + new_region + src[sp[1] :]
     try:
-        ast.parse(new)
+        if v.file.endswith('.py'):
+            ast.parse(new)
     except SyntaxError as e:
         raise AnalysisError(f'variant {v.name} does not parse: {e}') from e
     return {v.file: new}
